@@ -45,10 +45,10 @@ start = s.index("## 13. Seeded changes and which checks catch them")
 end = s.index("## Appendix A")
 intro = '''## 13. Seeded changes and which checks catch them
 
-Ten rounds of independent sub-agents (one per claimed property and round)
+Eleven rounds of independent sub-agents (one per claimed property and round)
 were given only the text of one property and a private scratch worktree, and
 asked for two changes each that break the property, keep the pinned suite green
-and need something specific to manifest; rounds two to ten were steered
+and need something specific to manifest; rounds two to eleven were steered
 towards state left by earlier calls, failures at interior points, unspecified
 behaviour of dependencies and cooperating edits, and were told which ideas were
 already taken (variants A/B = round 1, C/D = round 2, E/F = round 3,
@@ -60,7 +60,7 @@ same objects, unusual argument types, interacting keywords and resources;
 O/P = round 8, pointed at numerical edge semantics, inner-axis shapes, text
 format interplay and ordering of validation and side effects; Q/R = round 9,
 asked to find clauses and parts of the quantified domain no earlier idea had
-touched; S/T = round 10, the same with a time limit). Every change was confirmed by
+touched; S/T and U/V = rounds 10 and 11, the same with a time limit). Every change was confirmed by
 `tools/confirm_seeds.sh` in a scratch worktree (patch applies; no newly
 failing test; the agent's demo fails with the change and passes without) before
 it was filed under `/verif/seeded/<id>/` (`patch.diff`, `demo.py`, `notes.md`
@@ -212,6 +212,14 @@ handed to the index utilities; C15-S/T to a zero entry of a wider type in a
 dictionary and to the monomial basis built with its defaults; C20-T to
 exponent matrices in the smallest unsigned type; C12-S/T were caught without
 changes.
+Round eleven (8 of 22 missed at first): C18-U (default names cached across a
+change of `default_varname`) to the monomial basis asked for under the shipped
+name first and under another one afterwards; C13-U to arrays without elements
+in the copy steps; C17-U/V to evaluation points and roots handed over as numpy
+arrays; C11-U to pairs that sit between the two readings of numpy's asymmetric
+closeness test; C12-U/V to `variable`/`symbols` asked for again after the
+caller wrote into the first result and to an empty mapping; C07-U to accessor
+results scribbled over before the comparison.
 
 '''
 s = s[:start] + intro + table + "\n\n---------------------------------------------------------------------------\n\n" + s[end:]
